@@ -181,6 +181,8 @@ def make_env(ns, uni, params, memo, defs, result_holder):
         "iff": lambda a, b: bool(a) == bool(b),
         "let": lambda v, f: f(v),
         "seq_eq": lambda a, b: list(a) == list(b),
+        "same": lambda a, b: a == b,
+        "flat_elems": lambda outer, f: [x for o in outer for x in f(o)],
         "is_none": lambda x: x is None,
         "typeis": lambda x, c: isinstance(x, ns[c]),
         "elems": lambda L: list(L),
